@@ -24,7 +24,8 @@ ENUM_RULE = (
     "configuration built case-sensitive and case-insensitive; plus seeded structured-random pattern "
     "lists (alphabets from letters in both cases, @ [ ` { , NUL, 0x80 0xC1 0xE1 0xFF; prefix/suffix/infix/duplicate/"
     "case-variant closure; empty pattern; occasionally 30-130 patterns or a 200-600 byte pattern; every fourth list "
-    "is aimed at a prefilter variant, with injected duplicates and sometimes grown to 21-64 patterns) x random "
+    "is aimed at a prefilter variant, with injected duplicates and sometimes grown to 21-64 patterns; one in 24 has "
+    "120-200 patterns, around the packed searcher's limit of 128) x random "
     "configurations (kind, start kind, dense depth, byte classes, prefilter, case-insensitivity) x pattern-derived "
     "haystacks x random spans. "
 )
@@ -125,7 +126,10 @@ STREAM_RULE = (
     "pattern-length reads, mixed) x internal buffer capacity set through the hook to max_pattern_len + spare, spare in "
     "{1,2,3,5,8,64}; plus a few cases with the crate's default capacity on streams of 200 KiB+ (un-hooked path) and, "
     "on every run, one case per longest-pattern length in {8191, 8192, 8193, 16384, 32768, 65535, 65536, 65537, 100000, "
-    "131072} at the default capacity (the capacity formula is 8*len vs 64 KiB). "
+    "131072} at the default capacity (the capacity formula is 8*len vs 64 KiB); plus a 'prefilter x refill' family "
+    "(pattern lists aimed at memmem / start-byte / rare-byte prefilters with patterns of different lengths, buffers "
+    "of max_pattern_len + 64/100/257/1000/4096 bytes or the default, candidate-free runs of 0..700 bytes between "
+    "occurrences and near misses, reads of 1..700 bytes). "
     "Reader and writer are instrumented and log every call. "
 )
 
@@ -240,7 +244,7 @@ PROPS.update({
         "stages": {"quick": NATIVE, "thorough": NATIVE},
         "floors": {"quick": {"evaluations": 50_000, "distinct_nontrivial": 30_000, "rolls_observed": 1_000_000,
                              "cases_with_roll": 30_000, "cases_default_capacity": 16,
-                             "boundary_pattern_length_cases": 10},
+                             "boundary_pattern_length_cases": 10, "prefilter_refill_cases": 10_000},
                    "thorough": {"evaluations": 2_000_000, "rolls_observed": 50_000_000}},
         "timeout": T_DEFAULT,
     },
@@ -256,7 +260,7 @@ PROPS.update({
         "stages": {"quick": NATIVE, "thorough": NATIVE},
         "floors": {"quick": {"evaluations": 100_000, "distinct_nontrivial": 30_000, "rolls_observed": 1_000_000,
                              "cases_partial_writes": 10_000, "closure_calls_logged": 1_000_000,
-                             "boundary_pattern_length_cases": 10},
+                             "boundary_pattern_length_cases": 10, "prefilter_refill_cases": 10_000},
                    "thorough": {"evaluations": 4_000_000}},
         "timeout": T_DEFAULT,
     },
